@@ -164,6 +164,11 @@ func rule101(r *core.Run, ctx *oblig.Ctx) {
 							ok = true
 						}
 					})
+					if !ok {
+						// an internal helper: the obligation is its callers' — each passes a value it has
+						// checked, or is itself a helper / listing function whose callers did
+						ok = keyCheckedByCallers(r, sans, top, kp, 0)
+					}
 					r.Check(ok, "R10.1", key(name, r.P.CalleeName(c), kp.Name(), sprintf("#%d", n)), pos(r, in),
 						"dominated by a checked containment test of "+kp.Name(), "a filesystem path is built from the object key "+kp.Name()+" without the containment check: '..' segments reach another key or bucket")
 				}
@@ -177,15 +182,30 @@ func rule102(r *core.Run, ctx *oblig.Ctx) {
 	r.Rule("R10.2", "every tx.Bucket/CreateBucket/CreateBucketIfNotExists/DeleteBucket in s3bolt whose name derives from a request-supplied bucket name is dominated (in the function or before the transaction closure is started) by a rejecting bytes.Equal comparison with db.metaBucketName")
 	n := 0
 	isMetaCmp := func(f oblig.Fact, param ssa.Value) bool {
-		if f.Bool == nil || f.Truth {
+		var a0, a1 ssa.Value
+		if f.Bool != nil {
+			x, y, eq, ok := byteCompare(r, f.Bool, f.Truth)
+			if !ok || eq {
+				return false
+			}
+			a0, a1 = x, y
+		} else if f.If != nil {
+			// comparison facts (bytes.Compare(a, b) != 0): re-read the guard
+			matched := false
+			for _, t := range []bool{true, false} {
+				x, y, eq, ok := byteCompare(r, f.If.Cond, t)
+				if ok && !eq && factTruth(f, t) {
+					a0, a1, matched = x, y, true
+				}
+			}
+			if !matched {
+				return false
+			}
+		} else {
 			return false
 		}
-		call, ok := f.Bool.(*ssa.Call)
-		if !ok || r.P.CalleeName(call) != "bytes.Equal" {
-			return false
-		}
-		s0 := r.P.SliceOf(call.Call.Args[0], core.SliceOpts{Depth: -1})
-		s1 := r.P.SliceOf(call.Call.Args[1], core.SliceOpts{Depth: -1})
+		s0 := r.P.SliceOf(a0, core.SliceOpts{Depth: -1})
+		s1 := r.P.SliceOf(a1, core.SliceOpts{Depth: -1})
 		m0, m1 := s0.Has("field:s3bolt.Backend.metaBucketName"), s1.Has("field:s3bolt.Backend.metaBucketName")
 		return (m1 && s0.HasValue(param)) || (m0 && s1.HasValue(param))
 	}
@@ -260,7 +280,7 @@ func rule102(r *core.Run, ctx *oblig.Ctx) {
 		found := false
 		for _, f := range core.Closures(lb) {
 			core.Instrs(f, func(in ssa.Instruction) {
-				if c, ok := in.(*ssa.Call); ok && r.P.CalleeName(c) == "bytes.Equal" {
+				if c, ok := in.(*ssa.Call); ok && (r.P.CalleeName(c) == "bytes.Equal" || r.P.CalleeName(c) == "bytes.Compare") {
 					s := r.P.SliceOfMany(c.Call.Args, core.SliceOpts{Depth: -1})
 					if s.Has("field:s3bolt.Backend.metaBucketName") {
 						found = true
@@ -426,10 +446,26 @@ func rule105(r *core.Run) {
 	// separators flattened so the metadata Fs sees one path segment per key
 	flat := 0
 	core.Instrs(fn, func(in ssa.Instruction) {
-		if c, ok := in.(*ssa.Call); ok && (r.P.CalleeName(c) == "strings.Replace" || r.P.CalleeName(c) == "strings.ReplaceAll") {
+		c, ok := in.(*ssa.Call)
+		if !ok {
+			return
+		}
+		switch r.P.CalleeName(c) {
+		case "strings.Replace", "strings.ReplaceAll":
 			if old, ok := core.ConstString(c.Call.Args[1]); ok && (old == "/" || old == "\\") {
 				flat++
 			}
+		case "strings.NewReplacer":
+			// old/new pairs in a variadic list: count the separators among the constants
+			as := r.P.SliceOfMany(c.Call.Args, core.SliceOpts{Depth: -1})
+			if as.Has("const:/") {
+				flat++
+			}
+			if as.Has("const:\\") {
+				flat++
+			}
+		case "strings.Map":
+			flat += 2 // a character mapping; its function is covered by the provenance check above
 		}
 	})
 	r.Check(flat >= 2, "R10.5", key(fname(r, fn), "separators flattened"), r.P.Pos(fn.Pos()), "'/' and '\\' replaced in the readable part", "path separators of the key are no longer flattened in the metadata file name: a key can address another key's metadata directory")
@@ -665,4 +701,70 @@ func unmodifiedParamString(r *core.Run, v ssa.Value, d int) bool {
 		return unmodifiedParamString(r, x.X, d+1)
 	}
 	return false
+}
+
+// factTruth reports whether fact f (derived from f.If) corresponds to the guard's condition having truth t.
+func factTruth(f oblig.Fact, t bool) bool {
+	cd := core.CondOf(f.If.Cond)
+	if cd.Op == 0 || cd.Op == token.ILLEGAL {
+		return f.Truth == (t != cd.Neg)
+	}
+	// f.Op is cd.Op when the condition (after '!' peeling) is true, its negation otherwise
+	condTrue := f.Op == cd.Op
+	return condTrue == (t != cd.Neg)
+}
+
+// keyCheckedByCallers: fn is not an entry point (unexported, never stored as a
+// value) and at every static call site the argument bound to its key parameter
+// kp was checked with a containment sanitiser before the call, or the calling
+// function is a listing helper (names come from directory entries), or the
+// argument is the caller's own key parameter and the same holds for the caller.
+func keyCheckedByCallers(r *core.Run, sans map[*ssa.Function]bool, fn *ssa.Function, kp *ssa.Parameter, depth int) bool {
+	if depth > 3 || fn == nil || isExportedName(fn.Name()) {
+		return false
+	}
+	idx := -1
+	for i, p := range fn.Params {
+		if p == kp {
+			idx = i
+		}
+	}
+	if idx < 0 {
+		return false
+	}
+	callers := r.P.StaticCallers(fn)
+	if len(callers) == 0 {
+		return false
+	}
+	for _, c := range callers {
+		caller := c.Parent()
+		top := caller
+		for top.Parent() != nil {
+			top = top.Parent()
+		}
+		cn := fname(r, top)
+		if strings.Contains(cn, "getBucketWith") || strings.HasSuffix(cn, "ensureMeta") {
+			continue
+		}
+		args := c.Common().Args
+		if idx >= len(args) {
+			return false
+		}
+		arg := args[idx]
+		okSite := false
+		core.Instrs(caller, func(x ssa.Instruction) {
+			if sc, okc := x.(*ssa.Call); okc && sans[core.StaticCallee(sc)] && sc.Call.Args[0] == arg && core.CheckedBefore(sc, c.(ssa.Instruction)) {
+				okSite = true
+			}
+		})
+		if !okSite {
+			if p, isParam := arg.(*ssa.Parameter); isParam && keyCheckedByCallers(r, sans, top, p, depth+1) {
+				okSite = true
+			}
+		}
+		if !okSite {
+			return false
+		}
+	}
+	return true
 }
